@@ -54,6 +54,7 @@ type run struct {
 	netDelay     time.Duration
 	clientDelay  map[string]time.Duration
 	cat          []*catOp
+	recoverIDs   map[string]uint64
 	backups      map[int]*backupRec
 	tmpDirs      []string
 	leaseTasks   map[string]*leaseTask
